@@ -143,6 +143,38 @@ func (m *mergeCtx) ps5ScratchOnly() {
 			}
 		}
 	}
+	// the scratch DB appends through its own options: the DirPath of every Options copy Merge builds is the scratch directory
+	nOpt := 0
+	for _, b := range mg.Blocks {
+		for _, in := range b.Instrs {
+			f, base, val := core.StoreField(in)
+			if f == nil || fieldOwner(p, f) != p.R.Options || f.Name() != "DirPath" || !freshInFn(base, mg) {
+				continue
+			}
+			nOpt++
+			if !sameOriginLoose(val, mk) {
+				bad = append(bad, "the scratch database's DirPath is set at "+p.InstrPos(in)+" to something other than the scratch directory")
+			}
+		}
+	}
+	// a scratch DB whose options are a copy of the live ones and whose DirPath is never redirected writes into the data directory
+	copies := false
+	for _, b := range mg.Blocks {
+		for _, in := range b.Instrs {
+			if st, ok := in.(*ssa.Store); ok {
+				if al, ok := st.Addr.(*ssa.Alloc); ok {
+					if n0, ok := al.Type().(*types.Pointer).Elem().(*types.Named); ok && n0 == p.R.Options {
+						if lf, _ := core.LoadedField(st.Val); lf == p.R.DBOptions {
+							copies = true
+						}
+					}
+				}
+			}
+		}
+	}
+	if copies && nOpt == 0 {
+		bad = append(bad, "Merge copies the live options for its scratch database but never points their DirPath at the scratch directory: rewritten files are created in the data directory itself")
+	}
 	if n == 0 {
 		rep.Unk("VAC", "PS5l", "expected OpenFile calls in Merge", "", "found none")
 		return
@@ -958,5 +990,828 @@ func cd11SizePerChunk(p *core.Prog, rep *core.Report, header int64) {
 	}
 	if n == 0 {
 		rep.Unk("VAC", "CD11", "expected computed stores to DataPos.Size in package datafile", "", "found none")
+	}
+}
+
+// ---- BT5-BT7: the batch's size bookkeeping -----------------------------------------------------------------------
+
+// stagedSizeField: the Batch field that the staging methods compare (with other terms) against the size limit.
+func stagedSizeField(p *core.Prog) *types.Var {
+	limit := sizeLimitField(p)
+	var found *types.Var
+	for _, fn := range p.LibFuncs() {
+		if core.RecvNamed(fn) != p.R.Batch {
+			continue
+		}
+		for _, b := range fn.Blocks {
+			for _, in := range b.Instrs {
+				bo, ok := in.(*ssa.BinOp)
+				if !ok {
+					continue
+				}
+				switch bo.Op {
+				case token.GTR, token.GEQ, token.LSS, token.LEQ:
+				default:
+					continue
+				}
+				for _, pr := range [][2]ssa.Value{{bo.X, bo.Y}, {bo.Y, bo.X}} {
+					if core.LastField(core.Unwrap(pr[1])) != limit {
+						continue
+					}
+					var walk func(v ssa.Value, d int)
+					walk = func(v ssa.Value, d int) {
+						if d > 6 {
+							return
+						}
+						switch t := v.(type) {
+						case *ssa.BinOp:
+							walk(t.X, d+1)
+							walk(t.Y, d+1)
+						case *ssa.Convert:
+							walk(t.X, d+1)
+						case *ssa.UnOp:
+							if f, _ := core.LoadedField(t); f != nil && fieldOwner(p, f) == p.R.Batch {
+								found = f
+							}
+						}
+					}
+					walk(pr[0], 0)
+				}
+			}
+		}
+	}
+	return found
+}
+
+func bt5SizeBookkeeping(p *core.Prog, rep *core.Report) {
+	R := p.R
+	rep.Rule("BT5", "staged size bookkeeping: (a) in every Batch method that stages a record (append to the staged slice, directly or through the staging helper) the staged-size field is increased on the same path; (b) a reset of the staged slice is paired with a reset of the staged-size field; (c) the function that writes the staged records resets the staged slice on every success path; (d) each staging method compares the staged size against the size limit before staging and its overflow edge reaches the flush")
+	sz := stagedSizeField(p)
+	if sz == nil {
+		rep.Unk("BT5", "staged-size-field", "a Batch field compared with the size limit exists", "", "not found")
+		return
+	}
+	limit := sizeLimitField(p)
+	// staging helper(s): functions that append to the staged slice
+	appends := func(fn *ssa.Function) []ssa.Instruction {
+		var out []ssa.Instruction
+		for _, b := range fn.Blocks {
+			for _, in := range b.Instrs {
+				if f, _, val := core.StoreField(in); f == R.BatchStaged {
+					if c, ok := val.(*ssa.Call); ok {
+						if bi, ok := c.Call.Value.(*ssa.Builtin); ok && bi.Name() == "append" {
+							out = append(out, in)
+						}
+					}
+				}
+			}
+		}
+		return out
+	}
+	helpers := map[*ssa.Function]bool{}
+	for _, fn := range p.LibFuncs() {
+		if core.RecvNamed(fn) == R.Batch && len(appends(fn)) > 0 && !token.IsExported(fn.Name()) {
+			helpers[fn] = true
+		}
+	}
+	// flush functions: Batch methods that (transitively, through Batch methods) hand the staged records to the data file
+	flushFns := map[*ssa.Function]bool{}
+	for changed := true; changed; {
+		changed = false
+		for _, fn := range p.LibFuncs() {
+			if core.RecvNamed(fn) != R.Batch || flushFns[fn] {
+				continue
+			}
+			for _, b := range fn.Blocks {
+				for _, in := range b.Instrs {
+					if c, ok := in.(*ssa.Call); ok {
+						f := c.Common().StaticCallee()
+						if f == nil {
+							continue
+						}
+						if (core.RecvNamed(f) == R.DataFile && strings.Contains(f.Name(), "Staged")) || flushFns[f] {
+							if !flushFns[fn] {
+								flushFns[fn] = true
+								changed = true
+							}
+						}
+					}
+				}
+			}
+		}
+	}
+	pathAvoids := func(from ssa.Instruction, isPartner func(ssa.Instruction) bool) string {
+		b := from.Block()
+		for j := indexIn(from) + 1; j < len(b.Instrs); j++ {
+			if isPartner(b.Instrs[j]) {
+				return ""
+			}
+		}
+		escape := ""
+		seen := map[*ssa.BasicBlock]bool{}
+		var dfs func(x *ssa.BasicBlock)
+		dfs = func(x *ssa.BasicBlock) {
+			if escape != "" {
+				return
+			}
+			if r, ok := x.Instrs[len(x.Instrs)-1].(*ssa.Return); ok {
+				escape = p.InstrPos(r)
+				return
+			}
+			for _, s := range x.Succs {
+				if seen[s] {
+					continue
+				}
+				seen[s] = true
+				has := false
+				for _, in := range s.Instrs {
+					if isPartner(in) {
+						has = true
+					}
+				}
+				if !has {
+					dfs(s)
+				}
+			}
+		}
+		dfs(b)
+		return escape
+	}
+	dominatedByPartner := func(at ssa.Instruction, isPartner func(ssa.Instruction) bool) bool {
+		for _, b := range at.Parent().Blocks {
+			for _, in := range b.Instrs {
+				if isPartner(in) && before(in, at) {
+					return true
+				}
+			}
+		}
+		return false
+	}
+	isSizeAdd := func(in ssa.Instruction) bool {
+		f, _, val := core.StoreField(in)
+		if f != sz {
+			return false
+		}
+		bo, ok := val.(*ssa.BinOp)
+		return ok && (bo.Op == token.ADD || bo.Op == token.SUB)
+	}
+	isSizeReset := func(in ssa.Instruction) bool {
+		f, _, val := core.StoreField(in)
+		if f != sz {
+			return false
+		}
+		k, ok := constInt(val)
+		return ok && k == 0
+	}
+	for _, fn := range p.LibFuncs() {
+		if core.RecvNamed(fn) != R.Batch || !token.IsExported(fn.Name()) {
+			continue
+		}
+		// (a) staging sites of exported methods
+		var sites []ssa.Instruction
+		sites = append(sites, appends(fn)...)
+		for _, b := range fn.Blocks {
+			for _, in := range b.Instrs {
+				if c, ok := in.(*ssa.Call); ok && helpers[c.Common().StaticCallee()] {
+					sites = append(sites, in)
+				}
+			}
+		}
+		for i, s := range sites {
+			ok := dominatedByPartner(s, isSizeAdd)
+			esc := ""
+			if !ok {
+				esc = pathAvoids(s, isSizeAdd)
+				ok = esc == ""
+			}
+			rep.Check(ok, "BT5", fmt.Sprintf("staging-charges-size:%s#%d", core.FuncKey(fn), i+1), "a staged record is added to the staged size", p.InstrPos(s), fmt.Sprintf("the record staged at %s reaches the return at %s without Batch.%s being increased: the batch under-estimates what it holds and overflows the data file instead of flushing", p.InstrPos(s), esc, sz.Name()), true)
+		}
+		// (d) the overflow tests: every comparison against the limit has an edge that leads to the flush
+		if len(sites) > 0 {
+			nCmp := 0
+			for _, b := range fn.Blocks {
+				iff, ok := b.Instrs[len(b.Instrs)-1].(*ssa.If)
+				if !ok {
+					continue
+				}
+				bo, ok := iff.Cond.(*ssa.BinOp)
+				if !ok {
+					continue
+				}
+				if core.LastField(core.Unwrap(bo.X)) != limit && core.LastField(core.Unwrap(bo.Y)) != limit {
+					continue
+				}
+				nCmp++
+				okFlush := false
+				for _, b2 := range fn.Blocks {
+					for _, in := range b2.Instrs {
+						if c, ok := in.(*ssa.Call); ok && flushFns[c.Common().StaticCallee()] {
+							if edgeDominates(iff, true, b2) || edgeDominates(iff, false, b2) {
+								okFlush = true
+							}
+						}
+					}
+				}
+				rep.Check(okFlush, "BT5", fmt.Sprintf("overflow-flushes:%s#%d", core.FuncKey(fn), nCmp), "overflow of the staged size leads to the mid-batch flush", p.InstrPos(iff), core.FuncKey(fn)+" compares the staged size with the limit at "+p.InstrPos(iff)+" but neither edge leads to the flush: an overflowing batch is never written out mid-way and the data file grows past its limit", true)
+			}
+			for i, st := range sites {
+				dom := false
+				for _, b := range fn.Blocks {
+					iff, ok := b.Instrs[len(b.Instrs)-1].(*ssa.If)
+					if !ok {
+						continue
+					}
+					bo, ok := iff.Cond.(*ssa.BinOp)
+					if !ok {
+						continue
+					}
+					if core.LastField(core.Unwrap(bo.X)) != limit && core.LastField(core.Unwrap(bo.Y)) != limit {
+						continue
+					}
+					if b == st.Block() || b.Dominates(st.Block()) {
+						dom = true
+					}
+				}
+				rep.Check(dom, "BT5", fmt.Sprintf("overflow-test:%s#%d", core.FuncKey(fn), i+1), "the staged size is compared with the size limit before this staging", p.InstrPos(st), "the record staged at "+p.InstrPos(st)+" is not preceded by a (live) comparison of the staged size against the size limit: the mid-batch flush never happens on this path", true)
+			}
+		}
+	}
+	// (b), (c)
+	for _, fn := range p.LibFuncs() {
+		if core.RecvNamed(fn) != R.Batch {
+			continue
+		}
+		writes := false
+		for _, b := range fn.Blocks {
+			for _, in := range b.Instrs {
+				if c, ok := in.(*ssa.Call); ok {
+					if f := c.Common().StaticCallee(); f != nil && core.RecvNamed(f) == R.DataFile && strings.Contains(f.Name(), "Staged") {
+						writes = true
+					}
+				}
+				f, _, val := core.StoreField(in)
+				if f != R.BatchStaged {
+					continue
+				}
+				isReset := core.IsNilConst(val)
+				if sl, ok := val.(*ssa.Slice); ok && sl.High != nil {
+					if k, ok := constInt(sl.High); ok && k == 0 {
+						isReset = true
+					}
+				}
+				if !isReset || fn.Name() == "Commit" {
+					continue
+				}
+				ok := dominatedByPartner(in, isSizeReset)
+				esc := ""
+				if !ok {
+					esc = pathAvoids(in, isSizeReset)
+					ok = esc == ""
+				}
+				rep.Check(ok, "BT5", "reset-clears-size:"+core.FuncKey(fn), "a reset of the staged slice also zeroes the staged size", p.InstrPos(in), "the staged slice is reset at "+p.InstrPos(in)+" but Batch."+sz.Name()+" keeps its value up to the return at "+esc, true)
+			}
+		}
+		if writes {
+			// success returns are reached only after a reset of the staged slice
+			var bad []string
+			for _, r := range core.Returns(fn) {
+				ei := core.ErrResultIndex(fn.Signature)
+				if ei < 0 || !core.IsNilConst(core.ReturnOperand(r, ei)) {
+					continue
+				}
+				found := false
+				for _, b := range fn.Blocks {
+					for _, in := range b.Instrs {
+						if f, _, val := core.StoreField(in); f == R.BatchStaged {
+							if _, isCall := val.(*ssa.Call); !isCall && before(in, r) {
+								found = true
+							}
+						}
+					}
+				}
+				if !found {
+					bad = append(bad, "success return at "+p.InstrPos(r)+" without a reset of the staged slice: the same records are written again by the next flush")
+				}
+			}
+			rep.Check(len(bad) == 0, "BT5", "flush-resets-staged:"+core.FuncKey(fn), "the function that writes the staged records empties the staged slice", p.Pos(fn.Pos()), strings.Join(bad, "; "), true)
+		}
+	}
+}
+
+// ---- VF0: the record carries the arguments -----------------------------------------------------------------------
+
+func vf0RecordCarriesArgs(p *core.Prog, rep *core.Report) {
+	R := p.R
+	rep.Rule("VF0", "the record carries the call's arguments: in DB.Put / DB.Delete / Batch.Put / Batch.Delete every log record taken from the pool is, before it is handed on (to the appending / staging function), given a Key derived from the key parameter and - in the Put methods - a Value derived from the value parameter, by stores that dominate the hand-over")
+	derives := func(v ssa.Value, par *ssa.Parameter) bool {
+		seen := map[ssa.Value]bool{}
+		var walk func(v ssa.Value, d int) bool
+		walk = func(v ssa.Value, d int) bool {
+			if v == nil || d > 8 || seen[v] {
+				return false
+			}
+			seen[v] = true
+			if v == ssa.Value(par) {
+				return true
+			}
+			switch t := v.(type) {
+			case *ssa.Call:
+				for _, a := range t.Call.Args {
+					if walk(a, d+1) {
+						return true
+					}
+				}
+			case *ssa.Slice:
+				return walk(t.X, d+1)
+			case *ssa.Convert:
+				return walk(t.X, d+1)
+			case *ssa.Phi:
+				for _, e := range t.Edges {
+					if walk(e, d+1) {
+						return true
+					}
+				}
+			}
+			return false
+		}
+		return walk(v, 0)
+	}
+	var keyF, valF *types.Var
+	st := R.LogRecord.Underlying().(*types.Struct)
+	for i := 0; i < st.NumFields(); i++ {
+		switch st.Field(i).Name() {
+		case "Key":
+			keyF = st.Field(i)
+		case "Value":
+			valF = st.Field(i)
+		}
+	}
+	if keyF == nil || valF == nil {
+		core.Failf("role unresolved: LogRecord.Key / LogRecord.Value")
+	}
+	n := 0
+	perFn := map[*ssa.Function]int{}
+	for _, spec := range []struct {
+		recv *types.Named
+		name string
+		val  bool
+	}{{R.DB, "Put", true}, {R.DB, "Delete", false}, {R.Batch, "Put", true}, {R.Batch, "Delete", false}} {
+		fn := p.MustMethod(spec.recv, spec.name)
+		var keyP, valP *ssa.Parameter
+		for _, pp := range fn.Params {
+			switch pp.Name() {
+			case "key":
+				keyP = pp
+			case "value":
+				valP = pp
+			}
+		}
+		if keyP == nil && len(fn.Params) > 1 {
+			keyP = fn.Params[1]
+		}
+		if spec.val && valP == nil && len(fn.Params) > 2 {
+			valP = fn.Params[2]
+		}
+		for _, b := range fn.Blocks {
+			for _, in := range b.Instrs {
+				ta, ok := in.(*ssa.TypeAssert)
+				if !ok || !strings.HasSuffix(ta.AssertedType.String(), "datafile.LogRecord") {
+					continue
+				}
+				c, ok := ta.X.(*ssa.Call)
+				if !ok || !core.StaticCalleeIs(c.Common(), poolGet) {
+					continue
+				}
+				// hand-overs: calls to library functions with the record as an argument (not the pool release)
+				for _, r := range *ta.Referrers() {
+					hc, ok := r.(*ssa.Call)
+					if !ok {
+						continue
+					}
+					f := hc.Common().StaticCallee()
+					if f == nil || !p.InLib(f) || f.Name() == "putRecordToPool" {
+						continue
+					}
+					rel := false
+					for _, bb := range f.Blocks {
+						for _, ii := range bb.Instrs {
+							if ci, ok := ii.(ssa.CallInstruction); ok && core.StaticCalleeIs(ci.Common(), poolPut) {
+								rel = true
+							}
+						}
+					}
+					if rel {
+						continue
+					}
+					n++
+					perFn[fn]++
+					ord := perFn[fn]
+					check := func(field *types.Var, par *ssa.Parameter, what string) {
+						if par == nil {
+							return
+						}
+						ok := false
+						for _, r2 := range *ta.Referrers() {
+							fa, isFA := r2.(*ssa.FieldAddr)
+							if !isFA {
+								continue
+							}
+							if ff, _ := core.FieldOfAddr(fa); ff != field {
+								continue
+							}
+							for _, r3 := range *fa.Referrers() {
+								if st, isSt := r3.(*ssa.Store); isSt && st.Addr == ssa.Value(fa) && derives(st.Val, par) && before(st, hc) {
+									ok = true
+								}
+							}
+						}
+						rep.Check(ok, "VF0", fmt.Sprintf("record-carries-%s:%s->%s#%d", what, core.FuncKey(fn), f.Name(), ord), "the record handed on holds the caller's "+what, p.InstrPos(hc), fmt.Sprintf("the record taken from the pool at %s is handed to %s at %s without its %s having been set from the %s parameter on every path: an empty / stale %s is written", p.InstrPos(ta), f.Name(), p.InstrPos(hc), field.Name(), what, what), true)
+					}
+					check(keyF, keyP, "key")
+					if spec.val {
+						check(valF, valP, "value")
+					}
+				}
+			}
+		}
+	}
+	if n == 0 {
+		rep.Unk("VAC", "VF0", "expected pooled records handed on in Put / Delete", "", "found none")
+	}
+}
+
+// ---- TB5c / TB3b / TB3c / IT1b: sibling parity of the index layer -------------------------------------------------
+
+func tb5cMoversWrite(p *core.Prog, rep *core.Report) {
+	rep.Rule("TB5c", "sibling surface parity (movers): the moving methods (no results, not the closing one) of every shard-iterator implementation write through their receiver - a mover that writes nothing leaves the cursor where it was (a seek or rewind that silently does nothing under one index type)")
+	ms := newMutSum(p)
+	impls := p.R.Impls(p.R.IterIface)
+	it := p.R.IterIface.Underlying().(*types.Interface)
+	for i := 0; i < it.NumMethods(); i++ {
+		m := it.Method(i)
+		sig := m.Type().(*types.Signature)
+		if sig.Results().Len() != 0 || m.Name() == "close" {
+			continue
+		}
+		var bad []string
+		for _, im := range impls {
+			fn := p.MustMethod(im, m.Name())
+			if mu, _ := ms.mutates(fn); !mu {
+				bad = append(bad, core.FuncKey(fn)+" writes nothing through its receiver")
+			}
+		}
+		rep.Check(len(bad) == 0, "TB5c", "mover-writes:"+m.Name(), "movers of all implementations move", "", strings.Join(bad, "; "), true)
+	}
+}
+
+func tb3bIndexImplParity(p *core.Prog, rep *core.Report) {
+	rep.Rule("TB3b", "sibling parity of the index implementations: in every implementation the methods that return a superseded position (put, delete) mutate the container (non-empty writes-through-receiver summary) and have a return whose value is not the nil constant - an implementation that never reports the old position starves the reclaim accounting under that index type only")
+	ms := newMutSum(p)
+	impls := p.R.Impls(p.R.IndexIface)
+	it := p.R.IndexIface.Underlying().(*types.Interface)
+	for i := 0; i < it.NumMethods(); i++ {
+		m := it.Method(i)
+		sig := m.Type().(*types.Signature)
+		if sig.Results().Len() != 1 || sig.Params().Len() == 0 {
+			continue
+		}
+		pt, ok := sig.Results().At(0).Type().(*types.Pointer)
+		if !ok {
+			continue
+		}
+		if n, ok := pt.Elem().(*types.Named); !ok || n != p.R.DataPos {
+			continue
+		}
+		// get is a reader: only the mutating ones (those that mutate in at least one implementation)
+		anyMut := false
+		for _, im := range impls {
+			if mu, _ := ms.mutates(p.MustMethod(im, m.Name())); mu {
+				anyMut = true
+			}
+		}
+		if !anyMut {
+			continue
+		}
+		var bad []string
+		for _, im := range impls {
+			fn := p.MustMethod(im, m.Name())
+			if mu, _ := ms.mutates(fn); !mu {
+				bad = append(bad, core.FuncKey(fn)+" does not change its container")
+			}
+			nonNil := false
+			for _, r := range core.Returns(fn) {
+				for _, o := range core.Origins(core.ReturnOperand(r, 0)) {
+					if !core.IsNilConst(o) {
+						nonNil = true
+					}
+				}
+			}
+			if !nonNil {
+				bad = append(bad, core.FuncKey(fn)+" returns nil on every path: the superseded position is never reported")
+			}
+		}
+		rep.Check(len(bad) == 0, "TB3b", "impl-parity:"+m.Name(), "all implementations mutate and report the superseded position", "", strings.Join(bad, "; "), true)
+	}
+}
+
+func it1bDelegation(p *core.Prog, rep *core.Report) {
+	R := p.R
+	rep.Rule("IT1b", "the database iterator delegates: each of its exported methods Rewind / Seek / Next / Valid / Key calls the method of the same name on the merged index iterator on every path to its return")
+	for _, name := range []string{"Rewind", "Seek", "Next", "Valid", "Key"} {
+		fn := p.Method(R.Iterator, name)
+		target := p.Method(R.IndexIterator, name)
+		if fn == nil || target == nil {
+			continue
+		}
+		called := false
+		for _, b := range fn.Blocks {
+			for _, in := range b.Instrs {
+				if c, ok := in.(*ssa.Call); ok && c.Common().StaticCallee() == target {
+					// on every path: the call's block dominates every return
+					all := true
+					for _, r := range core.Returns(fn) {
+						if !(b == r.Block() || b.Dominates(r.Block())) {
+							all = false
+						}
+					}
+					if all {
+						called = true
+					}
+				}
+			}
+		}
+		rep.Check(called, "IT1b", "delegates:"+core.FuncKey(fn), "the call reaches the merged index iterator", p.Pos(fn.Pos()), core.FuncKey(fn)+" does not call (*IndexIterator)."+name+" on every path: the cursor does not move / the answer is not the index's", true)
+	}
+}
+
+func tb5dDirectionSymmetry(p *core.Prog, rep *core.Report) {
+	rep.Rule("TB5d", "direction symmetry: in the methods of the shard iterators, the two arms of a branch on a boolean receiver field (the direction flag) store the same set of receiver fields (closures created in an arm count with the arm) - an arm that forgets the cursor makes one direction of Seek / Rewind / Next a no-op")
+	impls := p.R.Impls(p.R.IterIface)
+	n := 0
+	for _, im := range impls {
+		// the direction flag is configuration: a boolean field no method ever stores (validity flags are stored)
+		storedByMethods := map[*types.Var]bool{}
+		for _, fn := range p.LibFuncs() {
+			if core.RecvNamed(fn) != im {
+				continue
+			}
+			for _, b := range fn.Blocks {
+				for _, in := range b.Instrs {
+					if f, _, _ := core.StoreField(in); f != nil {
+						storedByMethods[f] = true
+					}
+				}
+			}
+		}
+		for _, fn := range p.LibFuncs() {
+			if core.RecvNamed(fn) != im || fn.Blocks == nil {
+				continue
+			}
+			storesOf := func(start *ssa.BasicBlock) map[string]bool {
+				out := map[string]bool{}
+				var addFn func(f *ssa.Function, d int)
+				addBlock := func(b *ssa.BasicBlock, d int) {
+					for _, in := range b.Instrs {
+						if f, _, _ := core.StoreField(in); f != nil && fieldOwnerStruct(f) == im.Underlying() {
+							out[f.Name()] = true
+						}
+						if mc, ok := in.(*ssa.MakeClosure); ok && d < 2 {
+							if cf, ok := mc.Fn.(*ssa.Function); ok {
+								addFn(cf, d+1)
+							}
+						}
+					}
+				}
+				addFn = func(f *ssa.Function, d int) {
+					for _, b := range f.Blocks {
+						addBlock(b, d)
+					}
+				}
+				for _, b := range start.Parent().Blocks {
+					if b == start || start.Dominates(b) {
+						addBlock(b, 0)
+					}
+				}
+				return out
+			}
+			for _, b := range fn.Blocks {
+				iff, ok := b.Instrs[len(b.Instrs)-1].(*ssa.If)
+				if !ok {
+					continue
+				}
+				f, base := core.LoadedField(iff.Cond)
+				if f == nil || !isBoolT(f.Type()) || fieldOwnerStruct(f) != im.Underlying() || storedByMethods[f] {
+					continue
+				}
+				_ = base
+				t, e := b.Succs[0], b.Succs[1]
+				if len(t.Preds) != 1 || len(e.Preds) != 1 {
+					// an arm without a block of its own: it stores nothing
+					var other *ssa.BasicBlock
+					if len(t.Preds) == 1 {
+						other = t
+					} else if len(e.Preds) == 1 {
+						other = e
+					}
+					if other == nil {
+						continue
+					}
+					st := storesOf(other)
+					// early-return guards (`if !valid { return }`) have an arm that ends the method: not a direction branch
+					if _, isRet := other.Instrs[len(other.Instrs)-1].(*ssa.Return); isRet {
+						continue
+					}
+					if len(st) > 0 {
+						n++
+						rep.Check(false, "TB5d", fmt.Sprintf("direction-symmetry:%s@%s", core.FuncKey(fn), f.Name()), "both arms of the branch store the same receiver fields", p.InstrPos(iff), fmt.Sprintf("one arm of the branch on %s at %s stores %v, the other arm stores nothing", f.Name(), p.InstrPos(iff), keysOf(st)), true)
+					}
+					continue
+				}
+				if _, isRet := t.Instrs[len(t.Instrs)-1].(*ssa.Return); isRet && len(t.Instrs) == 1 {
+					continue
+				}
+				if _, isRet := e.Instrs[len(e.Instrs)-1].(*ssa.Return); isRet && len(e.Instrs) == 1 {
+					continue
+				}
+				st, se := storesOf(t), storesOf(e)
+				if len(st) == 0 && len(se) == 0 {
+					continue
+				}
+				n++
+				same := len(st) == len(se)
+				for k := range st {
+					if !se[k] {
+						same = false
+					}
+				}
+				rep.Check(same, "TB5d", fmt.Sprintf("direction-symmetry:%s@%s", core.FuncKey(fn), f.Name()), "both arms of the branch store the same receiver fields", p.InstrPos(iff), fmt.Sprintf("the arms of the branch on %s at %s store different receiver fields: %v vs %v", f.Name(), p.InstrPos(iff), keysOf(st), keysOf(se)), true)
+			}
+		}
+	}
+	_ = n
+}
+
+func keysOf(m map[string]bool) []string {
+	var out []string
+	for k := range m {
+		out = append(out, k)
+	}
+	return sortedStr(out)
+}
+
+// ---- CD12: a chunk never exceeds the room of its block ---------------------------------------------------------
+
+func cd12ChunkFitsBlock(p *core.Prog, rep *core.Report) {
+	rep.Rule("CD12", "a chunk fits its block: the value the chunk framer writes into the 16-bit length field is, on every path (through phis), the result of a min(...) - the remaining payload capped by the room left in the block; a path on which the cap is missing writes a chunk longer than a block for any record larger than one")
+	fr := chunkWriter(p)
+	n := 0
+	for _, b := range fr.Blocks {
+		for _, in := range b.Instrs {
+			c, ok := in.(*ssa.Call)
+			if !ok || !calleeIs(in, "(encoding/binary.littleEndian).PutUint16") || len(c.Common().Args) < 3 {
+				continue
+			}
+			n++
+			v := c.Common().Args[2]
+			for {
+				if cv, ok := v.(*ssa.Convert); ok {
+					v = cv.X
+					continue
+				}
+				break
+			}
+			var bad []string
+			seen := map[ssa.Value]bool{}
+			var walk func(x ssa.Value, d int)
+			walk = func(x ssa.Value, d int) {
+				if seen[x] || d > 8 {
+					return
+				}
+				seen[x] = true
+				switch t := x.(type) {
+				case *ssa.Phi:
+					for _, e := range t.Edges {
+						walk(e, d+1)
+					}
+				case *ssa.Convert:
+					walk(t.X, d+1)
+				case *ssa.Call:
+					if bi, ok := t.Call.Value.(*ssa.Builtin); ok && bi.Name() == "min" {
+						return
+					}
+					bad = append(bad, fmt.Sprintf("%s at %s", t.Name(), p.InstrPos(t)))
+				default:
+					pos := ""
+					if ii, ok := x.(ssa.Instruction); ok {
+						pos = " at " + p.InstrPos(ii)
+					}
+					bad = append(bad, fmt.Sprintf("%s (%T)%s", x.Name(), x, pos))
+				}
+			}
+			walk(v, 0)
+			rep.Check(len(bad) == 0, "CD12", "chunk-length-capped:"+core.FuncKey(fr), "the chunk length is capped by the room in the block on every path", p.InstrPos(in), "the length written at "+p.InstrPos(in)+" can be the uncapped value "+strings.Join(bad, ", ")+": a record larger than a block is framed as one over-long chunk (length truncated to 16 bits, readers lose framing)", true)
+		}
+	}
+	if n == 0 {
+		rep.Unk("VAC", "CD12", "expected a PutUint16 of the chunk length in the framer", "", "found none")
+	}
+}
+
+// ---- NIL1: a looked-up position is tested before it is used --------------------------------------------------
+
+func nil1LookupTested(p *core.Prog, rep *core.Report) {
+	R := p.R
+	rep.Rule("NIL1", "a looked-up position is tested before use: the result of ShardedIndex.Get (nil for an absent key) is dereferenced - field access, or handed to a library function that reads its fields - only on the non-nil edge of a test of that result")
+	get := p.MustMethod(R.ShardedIndex, "Get")
+	// library functions that dereference a *DataPos parameter without testing it first
+	derefs := func(fn *ssa.Function, idx int) bool {
+		if fn == nil || idx >= len(fn.Params) {
+			return false
+		}
+		par := fn.Params[idx]
+		for _, r := range *par.Referrers() {
+			if _, ok := r.(*ssa.FieldAddr); ok {
+				// guarded inside the callee?
+				guarded := false
+				for _, r2 := range *par.Referrers() {
+					if bo, ok := r2.(*ssa.BinOp); ok && (core.IsNilConst(bo.X) || core.IsNilConst(bo.Y)) {
+						guarded = true
+					}
+				}
+				if !guarded {
+					return true
+				}
+			}
+		}
+		return false
+	}
+	n := 0
+	perFn := map[*ssa.Function]int{}
+	for _, fn := range p.LibFuncs() {
+		for _, b := range fn.Blocks {
+			for _, in := range b.Instrs {
+				c, ok := in.(*ssa.Call)
+				if !ok || c.Common().StaticCallee() != get {
+					continue
+				}
+				n++
+				perFn[fn]++
+				// non-nil edges
+				type edge struct {
+					iff   *ssa.If
+					taken bool
+				}
+				var edges []edge
+				vals := []ssa.Value{c}
+				for _, r := range *c.Referrers() {
+					if ph, ok := r.(*ssa.Phi); ok {
+						vals = append(vals, ph)
+					}
+				}
+				for _, v := range vals {
+					for _, r := range *v.Referrers() {
+						bo, ok := r.(*ssa.BinOp)
+						if !ok || !(core.IsNilConst(bo.X) || core.IsNilConst(bo.Y)) {
+							continue
+						}
+						for _, r2 := range *bo.Referrers() {
+							if iff, ok := r2.(*ssa.If); ok {
+								edges = append(edges, edge{iff, bo.Op == token.NEQ})
+							}
+						}
+					}
+				}
+				guardedAt := func(blk *ssa.BasicBlock) bool {
+					for _, e := range edges {
+						if edgeDominates(e.iff, e.taken, blk) {
+							return true
+						}
+					}
+					return false
+				}
+				var bad []string
+				for _, v := range vals {
+					for _, r := range *v.Referrers() {
+						switch t := r.(type) {
+						case *ssa.FieldAddr:
+							if !guardedAt(t.Block()) {
+								bad = append(bad, "field of the result read at "+p.InstrPos(t)+" without a nil test")
+							}
+						case *ssa.Call:
+							f := t.Common().StaticCallee()
+							if f == nil || !p.InLib(f) {
+								continue
+							}
+							for i, a := range t.Common().Args {
+								if a == v && derefs(f, i) && !guardedAt(t.Block()) {
+									bad = append(bad, "result handed to "+f.Name()+" (which reads its fields) at "+p.InstrPos(t)+" without a nil test")
+								}
+							}
+						}
+					}
+				}
+				rep.Check(len(bad) == 0, "NIL1", fmt.Sprintf("lookup-tested:%s#%d", core.FuncKey(fn), perFn[fn]), "the position of an absent key is never dereferenced", p.InstrPos(in), strings.Join(sortedStr(bad), "; ")+": a read of an absent key panics instead of answering key-not-found", true)
+			}
+		}
 	}
 }
